@@ -149,7 +149,7 @@ def run_strategy(E, case):
         raise
     except Exception as e:      # noqa: BLE001 - the strategy raised on valid input
         from ..harness import solve_exists
-        res_, m = solve_exists(inp.pre, True)
+        res_, m = solve_exists(list(inp.pre) + list(getattr(e, "gb_pc", [])), True)
         Schedule.order = None
         return {"verdict": "sat", "solver_s": 0.0, "symex_s": time.time() - t0, "n_queries": 1, "obligations": 0, "failed_obligations": [],
                 "witnesses": {}, "encoded": sorted(E.encoded),
